@@ -49,6 +49,7 @@ type Contract struct {
 	HavocCalls []string
 	FrameCalls []string
 	AppendLike []string
+	Clobbers   map[string][]CExpr
 	BefRet   []CExpr
 	Assigns  []CExpr
 	NonNil   []CExpr
@@ -743,6 +744,21 @@ func (w *World) resolve(c *Contract, si *sigInfo) error {
 				return fmt.Errorf("%s:%d: missing: no call %q in %s", b.File, d.Line, d.CallText, b.Key())
 			}
 			c.HavocCalls = append(c.HavocCalls, d.CallText)
+		case "clobbers":
+			sites := w.callSites(c, d)
+			if len(sites) == 0 {
+				return fmt.Errorf("%s:%d: missing: no call %q in %s", b.File, d.Line, d.CallText, b.Key())
+			}
+			if c.Clobbers == nil {
+				c.Clobbers = map[string][]CExpr{}
+			}
+			for _, part := range strings.Split(d.Expr, ",") {
+				ce, err := w.check(c, sites[0].End(), d, strings.TrimSpace(part), subst)
+				if err != nil {
+					return err
+				}
+				c.Clobbers[d.CallText] = append(c.Clobbers[d.CallText], ce)
+			}
 		case "appendlike":
 			if len(w.callSites(c, d)) == 0 {
 				return fmt.Errorf("%s:%d: missing: no call %q in %s", b.File, d.Line, d.CallText, b.Key())
